@@ -1219,6 +1219,13 @@ def _l_pop(I, self, args, kw, fr, site):
                 return o.data.pop(i)
             except IndexError:
                 I.raise_py("IndexError", "pop", site)
+    if o.kind == "slist" and args and is_conc(_int(args[0], I)) and _int(args[0], I) == 0:
+        n = ropes.seq_len(o.data)
+        if not I.st.decide(zint(n) > 0):
+            I.raise_py("IndexError", "pop from empty list", site)
+        x = ropes.index_norm(I.st, o.data, 0)
+        o.data = ropes.slice_norm(I.st, o.data, 1, n)
+        return VInt(x)
     raise Unsupported("list.pop symbolic")
 
 
@@ -1362,12 +1369,25 @@ def _cond_wait(I, self, args, kw, fr, site):
     timeout = args[0] if args else kw.get("timeout", NONE)
     I.st.events.append(("cond.wait", self, timeout))
     I.E.on_wait(I, self, timeout, fr, site)
+    if "unbounded_waits" in I.E.ghost_types and isinstance(timeout, VNone):
+        # ghost counter of waits that no timeout bounds (progress obligations, C13)
+        cur = I.st.ghost.get("unbounded_waits")
+        if cur is None:
+            cur = I.fresh_of_type("int", "ghost.unbounded_waits")
+            I.st.ghost_init["unbounded_waits"] = cur
+        I.st.ghost["unbounded_waits"] = VInt(simp(zint(cur.t) + 1))
     return VBool(I.st.fresh_bool("cond_wait"))
 
 
 @intrinsic("Condition.notify_all", "Condition.notifyAll", "Condition.notify")
 def _cond_notify(I, self, args, kw, fr, site):
     I.st.events.append(("cond.notify", self))
+    if "notifications" in I.E.ghost_types:
+        cur = I.st.ghost.get("notifications")
+        if cur is None:
+            cur = I.fresh_of_type("int", "ghost.notifications")
+            I.st.ghost_init["notifications"] = cur
+        I.st.ghost["notifications"] = VInt(simp(zint(cur.t) + 1))
     return NONE
 
 
